@@ -2,7 +2,7 @@
 From Coq.Strings Require Import Byte String.
 From Coq Require Import List NArith Bool.
 Import ListNotations.
-From V Require Import lib.Bytes model.Quote model.QuoteGo model.WatchMode.
+From V Require Import lib.Bytes model.Quote model.QuoteGo model.WatchMode model.WatchHandler.
 Require Extraction.
 Require Import ExtrOcamlBasic.
 
@@ -20,6 +20,29 @@ Fixpoint litcheck (file : bytes) (i : nat) (ls : list bytes) : list bytes :=
   | l :: r => (match dev_write file (S i) with
                | Some v => if scan_ok l then bs "true:" ++ v else bs "false:"
                | None => bs "false:" end) :: litcheck file (S i) r
+  end.
+
+(* a watch session: n events, each  key v f k nlit nexp skel lits.. exprs..  (key = the template) *)
+Fixpoint session_events (n : nat) (a : list bytes) : list (bytes * gen_output bytes) :=
+  match n with
+  | O => []
+  | S n' =>
+      let nl := num (arg 4 a) in let ne := num (arg 5 a) in
+      let rest := skipn 7 a in
+      (arg 0 a, {| g_opts := opts (arg 1 a) (arg 2 a) (arg 3 a); g_literals := firstn nl rest;
+                   g_exprs := firstn ne (skipn nl rest); g_skel := arg 6 a |})
+      :: session_events n' (skipn (nl + ne) rest)
+  end.
+(* the model handler (model/WatchHandler.v: handle_event, the hash of a text being the text) run over the events;
+   per event two replies: the bits GoUpdated, TextUpdated, "the template's text file exists"; the file on disk *)
+Fixpoint session_replies (m : hmap (option bytes) bytes bytes) (evs : list (bytes * gen_output bytes)) : list bytes :=
+  match evs with
+  | [] => []
+  | ev :: r =>
+      let '(m1, a) := handle_event (option bytes) id_hash oeqb bytes bytes_eqb bytes bytes_eqb m ev in
+      let d := h_disk (m1 (fst ev)) in
+      (b2 (r_go a) ++ b2 (r_text a) ++ b2 (match d with Some _ => true | None => false end))
+      :: (match d with Some x => x | None => [] end) :: session_replies m1 r
   end.
 
 Definition dispatch (f : bytes) (a : list bytes) : list bytes :=
@@ -50,6 +73,8 @@ Definition dispatch (f : bytes) (a : list bytes) : list bytes :=
        then the literals of its WriteString lines in order *)
     let c := arg 0 a in
     skel_of_code c :: b2 (wf_code c) :: op_lits (ops_of_code c)
+  else if is f "session" then
+    session_replies (h_empty (option bytes) None bytes bytes) (session_events (num (arg 0 a)) (skipn 1 a))
   else [bs "?"].
 
 Extraction "model.ml" dispatch.
